@@ -4,16 +4,17 @@
 // regenerated definition for ALL arguments, so the properties proved about the model are proved about what the source says now.
 //
 // Subset translated (anything else makes the translator fail, which `./check` reports as a broken proof obligation):
-//   * statements: `x := e`, `x = e`, `var x T`, `v, err := f(..)` followed by `if err != nil { return .., err }`,
+//   - statements: `x := e`, `x = e`, `var x T`, `v, err := f(..)` followed by `if err != nil { return .., err }`,
 //     `if c { .. } [else ..]` (bodies that return, or that only assign), `return ..`;
-//   * expressions over cosmossdk.io/math LegacyDec and Int (method calls, constructors), machine integers, booleans;
-//   * every LegacyDec operation that asserts the 2^256 range or can divide by zero becomes a step of the `Except Err` monad
+//   - expressions over cosmossdk.io/math LegacyDec and Int (method calls, constructors), machine integers, booleans;
+//   - every LegacyDec operation that asserts the 2^256 range or can divide by zero becomes a step of the `Except Err` monad
 //     (`addC subC mulC quoC quoIntC mulIntC ceilC` of ElysModel/Amm/Base.lean); math.Int `Quo` by zero is `iquoC`;
-//   * anything rooted at a parameter of struct / pointer / interface type with no computable meaning (`ctx.BlockHeight()`,
+//   - anything rooted at a parameter of struct / pointer / interface type with no computable meaning (`ctx.BlockHeight()`,
 //     `mtp.TakeProfitPrice`, `params.WeightBreakingFeeMultiplier`) is a FREE TERM: it becomes a parameter of the Lean
 //     definition, named after its source text, in order of first occurrence (after the scalar parameters);
-//   * calls of other listed functions are calls of their Lean definitions; calls listed in `externs` (loops: `Pow`) are calls
+//   - calls of other listed functions are calls of their Lean definitions; calls listed in `externs` (loops: `Pow`) are calls
 //     of the hand-written Lean definition named there.
+//
 // Not modelled (stated in the evidence as assumptions): the 256-bit overflow panic of math.Int Add/Sub/Mul, wrap-around of
 // int64/uint64 arithmetic, in-place mutation by the *Mut methods beyond the value they return (receivers are not re-read).
 //
@@ -47,13 +48,15 @@ func fail(s string) {
 type kind int
 
 const (
-	kDec kind = iota
-	kInt      // cosmossdk.io/math.Int
-	kMach     // int, int64, uint64 ...
+	kDec  kind = iota
+	kInt       // cosmossdk.io/math.Int
+	kMach      // int, int64, uint64 ...
 	kBool
 	kErr
 	kOpaque
 	kString
+	kCoins    // sdk.Coins, one denom: its amount
+	kDecCoins // sdk.DecCoins, one denom: its raw LegacyDec amount
 )
 
 func kindOf(t types.Type) kind {
@@ -68,6 +71,10 @@ func kindOf(t types.Type) kind {
 		return kInt
 	case "error":
 		return kErr
+	case "github.com/cosmos/cosmos-sdk/types.Coins":
+		return kCoins
+	case "github.com/cosmos/cosmos-sdk/types.DecCoins":
+		return kDecCoins
 	}
 	if b, ok := t.Underlying().(*types.Basic); ok {
 		if b.Info()&types.IsInteger != 0 {
@@ -95,6 +102,8 @@ func ident(s string) string {
 			b.WriteRune(r)
 		case r == '.':
 			b.WriteRune('_')
+		case r == '#':
+			b.WriteString("_r")
 		}
 	}
 	out := b.String()
@@ -108,17 +117,18 @@ func ident(s string) string {
 }
 
 type fn struct {
-	spec  Spec
-	pkg   *packages.Package
-	decl  *ast.FuncDecl
-	free  []string          // free terms, in order of first occurrence (Lean names)
-	freeT map[string]string // Lean name -> source text
-	freeK map[string]kind
-	freeN map[string]string   // Lean name -> normalised definition (parameters by position, local aliases expanded)
-	alias map[string]ast.Expr // opaque local variable -> the expression it was defined as
-	parIx map[string]int      // parameter / receiver name -> position
-	calls map[string]bool     // listed functions called (Lean names)
-	tmp   int
+	spec    Spec
+	pkg     *packages.Package
+	decl    *ast.FuncDecl
+	free    []string          // free terms, in order of first occurrence (Lean names)
+	freeT   map[string]string // Lean name -> source text
+	freeK   map[string]kind
+	freeN   map[string]string   // Lean name -> normalised definition (parameters by position, local aliases expanded)
+	alias   map[string]ast.Expr // opaque local variable -> the expression it was defined as
+	parIx   map[string]int      // parameter / receiver name -> position
+	calls   map[string]bool     // listed functions called (Lean names)
+	skipped []string            // calls made for an effect the model does not carry
+	tmp     int
 }
 
 type tr struct {
@@ -222,9 +232,8 @@ func (t *tr) norm(e ast.Expr, depth int) string {
 
 // opaqueArg: an argument a free call may have: rooted at an opaque / string variable, or a package-level constant
 func (t *tr) opaqueArg(e ast.Expr) bool {
-	k := kindOf(t.typeOf(e))
-	if k != kOpaque && k != kString {
-		return false
+	if tv, ok := t.f.pkg.TypesInfo.Types[e]; ok && tv.Value != nil {
+		return true // a constant (types.Position_LONG)
 	}
 	ok := true
 	ast.Inspect(e, func(n ast.Node) bool {
@@ -391,6 +400,10 @@ func (t *tr) expr(b *block, e ast.Expr) string {
 		t.bad(e, "selector")
 	case *ast.CallExpr:
 		return t.call(b, x)
+	case *ast.CompositeLit:
+		if k := kindOf(t.typeOf(x)); (k == kCoins || k == kDecCoins) && len(x.Elts) == 0 {
+			return "0" // sdk.Coins{} / sdk.DecCoins{}: the empty set
+		}
 	}
 	t.bad(e, "expression form")
 	return ""
@@ -455,6 +468,44 @@ func (t *tr) call(b *block, c *ast.CallExpr) string {
 			t.bad(c, "cosmossdk.io/math function")
 		}
 	}
+	// sdk.Coins / sdk.DecCoins, read as ONE denom (the base currency the collectors work in): a Coins value is its amount, a DecCoins
+	// value its raw LegacyDec amount
+	if obj != nil && obj.Pkg() != nil && obj.Pkg().Path() == "github.com/cosmos/cosmos-sdk/types" {
+		if obj.Name() == "NewDecCoinsFromCoins" && len(c.Args) == 1 {
+			return "(" + t.expr(b, c.Args[0]) + " * P)"
+		}
+		if sel, ok := c.Fun.(*ast.SelectorExpr); ok {
+			rk := kindOf(t.typeOf(sel.X))
+			if rk == kCoins || rk == kDecCoins {
+				recv := t.expr(b, sel.X)
+				var args []string
+				for _, a := range c.Args {
+					args = append(args, t.expr(b, a))
+				}
+				switch obj.Name() {
+				case "IsZero", "Empty":
+					return "(" + recv + " = 0)"
+				case "IsAllPositive":
+					return "(" + recv + " > 0)"
+				case "AmountOf":
+					return recv
+				case "Add":
+					if len(args) == 1 {
+						return "(" + recv + " + " + args[0] + ")"
+					}
+				case "Sub":
+					if len(args) == 1 {
+						return t.step(b, "coinsSubC", recv, args[0]) // panics on a negative result
+					}
+				case "MulDecTruncate":
+					if rk == kDecCoins {
+						return t.step(b, "chk", "(Dec.mulTruncate "+recv+" "+args[0]+")")
+					}
+				}
+				t.bad(c, "method of sdk.Coins / sdk.DecCoins")
+			}
+		}
+	}
 	// methods of LegacyDec / Int
 	if sel, ok := c.Fun.(*ast.SelectorExpr); ok && obj != nil && obj.Pkg() != nil && obj.Pkg().Path() == mathPkg {
 		rk := kindOf(t.typeOf(sel.X))
@@ -500,6 +551,8 @@ func (t *tr) call(b *block, c *ast.CallExpr) string {
 				return "(Dec.roundInt " + recv + ")"
 			case "Ceil":
 				return "(" + t.step(b, "ceilC", recv) + " * P)"
+			case "Power":
+				return t.step(b, "powerC", recv, "("+args[0]+").toNat")
 			case "MulTruncate":
 				return t.step(b, "chk", "(Dec.mulTruncate "+recv+" "+args[0]+")")
 			case "QuoTruncate":
@@ -528,7 +581,7 @@ func (t *tr) call(b *block, c *ast.CallExpr) string {
 	if id := t.rootIdent(c); id != nil {
 		if o := t.f.pkg.TypesInfo.Uses[id]; o != nil {
 			if _, isVar := o.(*types.Var); isVar && kindOf(o.Type()) == kOpaque {
-				if rk := kindOf(t.typeOf(c)); rk == kDec || rk == kInt || rk == kMach || rk == kBool {
+				if rk := kindOf(t.typeOf(c)); rk == kDec || rk == kInt || rk == kMach || rk == kBool || rk == kCoins || rk == kDecCoins {
 					return t.freeTerm(c)
 				}
 			}
@@ -543,7 +596,7 @@ func (t *tr) call(b *block, c *ast.CallExpr) string {
 					allOpaque = false
 				}
 			}
-			if rk := kindOf(t.typeOf(c)); allOpaque && (rk == kDec || rk == kInt || rk == kMach || rk == kBool) {
+			if rk := kindOf(t.typeOf(c)); allOpaque && (rk == kDec || rk == kInt || rk == kMach || rk == kBool || rk == kCoins || rk == kDecCoins) {
 				return t.freeTerm(c)
 			}
 		}
@@ -566,6 +619,47 @@ func (t *tr) call(b *block, c *ast.CallExpr) string {
 		args = append(args, t.expr(b, a))
 	}
 	return t.step(b, lean, args...)
+}
+
+// freeCall: a call the translator may treat as a read of the outside world: not listed, not an extern, not a method of
+// cosmossdk.io/math, and either rooted at an opaque variable with opaque arguments or a function of opaque arguments only
+func (t *tr) freeCall(c *ast.CallExpr) bool {
+	obj := t.calleeObj(c)
+	key := objKey(obj)
+	if _, ok := t.all[key]; ok {
+		return false
+	}
+	if _, ok := externs[key]; ok {
+		return false
+	}
+	if obj != nil && obj.Pkg() != nil && obj.Pkg().Path() == mathPkg {
+		return false
+	}
+	for _, a := range c.Args {
+		if !t.opaqueArg(a) {
+			return false
+		}
+	}
+	if id := t.rootIdent(c); id != nil {
+		if v, isVar := t.f.pkg.TypesInfo.Uses[id].(*types.Var); isVar && kindOf(v.Type()) == kOpaque {
+			return true
+		}
+	}
+	return len(c.Args) > 0
+}
+
+// freeResult: result j of a free call with several results, as a free term
+func (t *tr) freeResult(c *ast.CallExpr, j int, k kind, suffix string) string {
+	src := t.text(c) + suffix
+	name := ident(strings.ReplaceAll(strings.ReplaceAll(src, "()", ""), "*", ""))
+	if _, ok := t.f.freeT[name]; !ok {
+		t.f.free = append(t.f.free, name)
+		t.f.freeT[name] = src
+		t.f.freeK[name] = k
+		t.f.freeN[name] = t.norm(c, 0) + suffix
+	}
+	_ = j
+	return name
 }
 
 // errName: the Lean `Err` constructor for a returned Go error expression
@@ -622,6 +716,9 @@ func (t *tr) ret(b *block, r *ast.ReturnStmt, pending string) {
 		}
 		vals = append(vals, v)
 	}
+	if t.f.spec.Effects {
+		vals = append(vals, sendsVar)
+	}
 	if len(vals) == 1 {
 		b.add("pure " + vals[0])
 	} else {
@@ -653,11 +750,20 @@ func terminates(s []ast.Stmt) bool {
 }
 
 // assigned: variables assigned with `=` (not declared) in the statements, in order of first occurrence
-func assigned(s []ast.Stmt, acc *[]string, seen map[string]bool, declared map[string]bool) {
+func (t *tr) assigned(s []ast.Stmt, acc *[]string, seen map[string]bool, declared map[string]bool) {
 	for _, st := range s {
 		switch x := st.(type) {
 		case *ast.AssignStmt:
+			if len(x.Rhs) == 1 {
+				if c, ok := x.Rhs[0].(*ast.CallExpr); ok && t.isSend(c) && !seen[sendsVar] {
+					seen[sendsVar] = true
+					*acc = append(*acc, sendsVar)
+				}
+			}
 			for _, l := range x.Lhs {
+				if kindOf(t.typeOf(l)) == kErr {
+					continue
+				}
 				if id, ok := l.(*ast.Ident); ok && id.Name != "_" {
 					if x.Tok == token.DEFINE {
 						declared[id.Name] = true
@@ -672,18 +778,35 @@ func assigned(s []ast.Stmt, acc *[]string, seen map[string]bool, declared map[st
 			for k := range declared {
 				inner[k] = true
 			}
-			assigned(x.Body.List, acc, seen, inner)
+			t.assigned(x.Body.List, acc, seen, inner)
 			if eb, ok := x.Else.(*ast.BlockStmt); ok {
 				inner2 := map[string]bool{}
 				for k := range declared {
 					inner2[k] = true
 				}
-				assigned(eb.List, acc, seen, inner2)
+				t.assigned(eb.List, acc, seen, inner2)
 			} else if ei, ok := x.Else.(*ast.IfStmt); ok {
-				assigned([]ast.Stmt{ei}, acc, seen, declared)
+				t.assigned([]ast.Stmt{ei}, acc, seen, declared)
 			}
 		}
 	}
+}
+
+// sendsVar: the trace of bank transfers a function with effects makes, oldest first: (from, to, amount)
+const sendsVar = "sends__"
+
+// isSend: a call of one of x/bank's SendCoins* methods on something reached from an opaque variable
+func (t *tr) isSend(c *ast.CallExpr) bool {
+	sel, ok := c.Fun.(*ast.SelectorExpr)
+	if !ok || !strings.HasPrefix(sel.Sel.Name, "SendCoins") || len(c.Args) != 4 {
+		return false
+	}
+	id := t.rootIdent(sel.X)
+	if id == nil {
+		return false
+	}
+	v, isVar := t.f.pkg.TypesInfo.Uses[id].(*types.Var)
+	return isVar && kindOf(v.Type()) == kOpaque
 }
 
 func indent(lines []string, by string) []string {
@@ -716,6 +839,92 @@ func (t *tr) stmts(list []ast.Stmt, tail []string) []string {
 				}
 			}
 		case *ast.AssignStmt:
+			// err := k.bankKeeper.SendCoins…(ctx, from, to, coins) ; if err != nil { return …, err } — an effect: appended to the trace.
+			// The transfer itself is taken to succeed (the theorems about the trace say that what is sent was there to send)
+			if len(x.Lhs) == 1 && len(x.Rhs) == 1 && kindOf(t.typeOf(x.Lhs[0])) == kErr {
+				if c, ok := x.Rhs[0].(*ast.CallExpr); ok && t.isSend(c) {
+					if !t.f.spec.Effects {
+						t.bad(x, "bank transfer in a function not marked Effects in spec.go")
+					}
+					amt := t.expr(b, c.Args[3])
+					b.add(fmt.Sprintf("let %s := %s ++ [(%q, %q, %s)]", sendsVar, sendsVar, t.norm(c.Args[1], 0), t.norm(c.Args[2], 0), amt))
+					errId := x.Lhs[0].(*ast.Ident)
+					if i+1 < len(list) {
+						if is, ok := list[i+1].(*ast.IfStmt); ok && is.Init == nil && t.isErrCheck(is, errId.Name) {
+							i++
+							continue
+						}
+					}
+					t.bad(x, "result of a bank transfer not checked by the next statement")
+				}
+			}
+			// lps, _ := decCoins.TruncateDecimal()
+			if len(x.Lhs) == 2 && len(x.Rhs) == 1 {
+				if c, ok := x.Rhs[0].(*ast.CallExpr); ok {
+					if sel, ok := c.Fun.(*ast.SelectorExpr); ok && sel.Sel.Name == "TruncateDecimal" && kindOf(t.typeOf(sel.X)) == kDecCoins {
+						recv := t.expr(b, sel.X)
+						for j, part := range []string{"(" + recv + ".tdiv P)", "(" + recv + ".tmod P)"} {
+							if id, ok := x.Lhs[j].(*ast.Ident); ok && id.Name != "_" {
+								b.add(fmt.Sprintf("let %s := %s", ident(id.Name), part))
+							}
+						}
+						continue
+					}
+				}
+			}
+			// a, b := k.F(ctx, pool) — a read of the outside world with several results: each scalar result is a free term, each
+			// opaque result an alias of the call, a trailing `error` / comma-ok `bool` a free Boolean
+			if call, isCall := func() (*ast.CallExpr, bool) {
+				if len(x.Lhs) >= 2 && len(x.Rhs) == 1 {
+					c, ok := x.Rhs[0].(*ast.CallExpr)
+					return c, ok && t.freeCall(c)
+				}
+				return nil, false
+			}(); isCall {
+				n := len(x.Lhs)
+				lastK := kindOf(t.typeOf(x.Lhs[n-1]))
+				upto := n
+				if lastK == kErr {
+					upto = n - 1
+				}
+				for j := 0; j < upto; j++ {
+					id, ok := x.Lhs[j].(*ast.Ident)
+					if !ok {
+						t.bad(x, "tuple assignment to a non-variable")
+					}
+					if id.Name == "_" {
+						continue
+					}
+					k := kindOf(t.typeOf(x.Lhs[j]))
+					if k == kOpaque || k == kString {
+						if _, again := t.f.alias[id.Name]; again {
+							t.bad(x, "opaque variable assigned twice")
+						}
+						t.f.alias[id.Name] = call
+						continue
+					}
+					suffix := fmt.Sprintf("#%d", j)
+					if upto == 1 {
+						suffix = ""
+					}
+					b.add(fmt.Sprintf("let %s := %s", ident(id.Name), t.freeResult(call, j, k, suffix)))
+				}
+				if lastK == kErr {
+					errId := x.Lhs[n-1].(*ast.Ident)
+					flag := t.freeResult(call, n-1, kBool, "#err")
+					if i+1 < len(list) {
+						if is, ok := list[i+1].(*ast.IfStmt); ok && is.Init == nil && t.isErrCheck(is, errId.Name) {
+							b.add("if " + flag + " then do")
+							b.add("  .error .badArgs")
+							b.add("else do")
+							b.lines = append(b.lines, indent(t.stmts(list[i+2:], tail), "  ")...)
+							return b.lines
+						}
+					}
+					t.bad(x, "error result of a free call not checked by the next statement")
+				}
+				continue
+			}
 			// v, err := f(..) ; if err != nil { return .., err }
 			if len(x.Lhs) >= 2 && len(x.Rhs) == 1 {
 				lastId, ok := x.Lhs[len(x.Lhs)-1].(*ast.Ident)
@@ -796,7 +1005,7 @@ func (t *tr) stmts(list []ast.Stmt, tail []string) []string {
 			default:
 				// assignment-only bodies: join the assigned variables
 				var vars []string
-				assigned([]ast.Stmt{x}, &vars, map[string]bool{}, map[string]bool{})
+				t.assigned([]ast.Stmt{x}, &vars, map[string]bool{}, map[string]bool{})
 				if len(vars) == 0 {
 					t.bad(x, "if statement with no effect the translator understands")
 				}
@@ -818,6 +1027,20 @@ func (t *tr) stmts(list []ast.Stmt, tail []string) []string {
 		case *ast.ReturnStmt:
 			t.ret(b, x, "")
 			return b.lines
+		case *ast.ExprStmt:
+			// a call made for its effect on something the model does not carry (a log line, a statistics record): skipped, and listed
+			c, ok := x.X.(*ast.CallExpr)
+			if !ok || t.isSend(c) {
+				t.bad(x, "expression statement")
+			}
+			id := t.rootIdent(c.Fun)
+			if id == nil {
+				t.bad(x, "expression statement")
+			}
+			if v, isVar := t.f.pkg.TypesInfo.Uses[id].(*types.Var); !isVar || kindOf(v.Type()) != kOpaque {
+				t.bad(x, "expression statement")
+			}
+			t.f.skipped = append(t.f.skipped, t.norm(c.Fun, 0))
 		default:
 			t.bad(list[i], "statement form")
 		}
@@ -835,10 +1058,15 @@ func (t *tr) isErrCheck(is *ast.IfStmt, errVar string) bool {
 		return false
 	}
 	id, ok := be.X.(*ast.Ident)
-	if !ok || id.Name != errVar || is.Else != nil || len(is.Body.List) != 1 {
+	if !ok || id.Name != errVar || is.Else != nil || len(is.Body.List) == 0 {
 		return false
 	}
-	r, ok := is.Body.List[0].(*ast.ReturnStmt)
+	for _, st := range is.Body.List[:len(is.Body.List)-1] { // logging before the return
+		if _, isExpr := st.(*ast.ExprStmt); !isExpr {
+			return false
+		}
+	}
+	r, ok := is.Body.List[len(is.Body.List)-1].(*ast.ReturnStmt)
 	if !ok || len(r.Results) == 0 {
 		return false
 	}
@@ -886,6 +1114,9 @@ func (t *tr) function() string {
 			}
 		}
 	}
+	if f.spec.Effects {
+		pre = append(pre, fmt.Sprintf("let %s : List (String × String × Int) := []", sendsVar))
+	}
 	body := append(pre, t.stmts(f.decl.Body.List, nil)...)
 	var rts []string
 	if r := f.decl.Type.Results; r != nil {
@@ -906,6 +1137,9 @@ func (t *tr) function() string {
 	for _, n := range f.free {
 		k := f.freeK[n]
 		params = append(params, fmt.Sprintf("(%s : %s)", n, leanType(k)))
+	}
+	if f.spec.Effects {
+		rts = append(rts, "List (String × String × Int)")
 	}
 	rt := strings.Join(rts, " × ")
 	if len(rts) > 1 {
@@ -1062,6 +1296,18 @@ func main() {
 			}
 			first = false
 			b.WriteString(fmt.Sprintf("  (%q, %d, %q)", f.spec.Lean, i, f.freeN[n]))
+		}
+	}
+	b.WriteString("]\n\n")
+	b.WriteString("/-- calls made for an effect the model does not carry (log lines, statistics records), per function: skipped by the translator. -/\ndef skippedCalls : List (String × String) := [")
+	firstS := true
+	for _, f := range order {
+		for _, c := range f.skipped {
+			if !firstS {
+				b.WriteString(", ")
+			}
+			firstS = false
+			b.WriteString(fmt.Sprintf("(%q, %q)", f.spec.Lean, c))
 		}
 	}
 	b.WriteString("]\n\n")
